@@ -393,7 +393,17 @@ def buffered_variants(item):
             used = {}
             for t, _ in hist[i:j]:
                 used.setdefault(DOC_OF[t], set()).add(t)
-            multi = multi or any(len(v) > 1 for v in used.values())
+            # ... except for Job.clear() / Job.reset() through a second Job object that has not touched the document at
+            # all so far, as the last thing done to that document inside the block: the call itself opens the document
+            # (from the buffer) and empties it, so the writing handle of the emptied content is that object
+            for d_, v in used.items():
+                if len(v) > 1:
+                    seq = [(k2, hist[k2][0], hist[k2][1][0]) for k2 in range(i, j) if DOC_OF[hist[k2][0]] == d_]
+                    last = seq[-1]
+                    pristine = all(t2 != last[1] for t2, _ in hist[:last[0]])
+                    first_handles = {t2 for _, t2, _ in seq[:-1]}
+                    if not (last[2] in ("job_clear", "job_reset") and pristine and len(first_handles) == 1):
+                        multi = True
         # lifecycle operations are not performed inside buffered blocks (removing a job whose document is buffered makes
         # the block exit raise BufferedError in the dependency; the property speaks of mapping operations)
         for (i, j) in br:
